@@ -48,6 +48,17 @@ Definition contains_fields (ti : tinterval) (c : civil) : bool :=
   field_ok (ti_wdays ti) (incl_match (c_wday c)) &&
   field_ok (ti_years ti) (incl_match (c_year c)).
 
+(* ---- the declarative calendar statement, executable (proved equivalent in Proofs/TimeIntervalProofs.v) ---- *)
+Definition resolve_dom (dim v : Z) : Z := if v <? 0 then dim + v + 1 else v.
+Definition spec_fields (ti : tinterval) (c : civil) : bool :=
+  let dim := days_in_month (c_year c) (c_month c) in
+  field_ok (ti_times ti) (fun r => (r_b r <=? c_min c) && (c_min c <? r_e r)) &&
+  field_ok (ti_wdays ti) (fun r => (r_b r <=? c_wday c) && (c_wday c <=? r_e r)) &&
+  field_ok (ti_doms ti) (fun r => (resolve_dom dim (r_b r) <=? c_day c) && (c_day c <=? resolve_dom dim (r_e r))
+                                  && (1 <=? c_day c) && (c_day c <=? dim)) &&
+  field_ok (ti_months ti) (fun r => (r_b r <=? c_month c) && (c_month c <=? r_e r)) &&
+  field_ok (ti_years ti) (fun r => (r_b r <=? c_year c) && (c_year c <=? r_e r)).
+
 (* offset used by ContainsTime(t): the interval's location if set, otherwise t's own location (own_off) *)
 Definition eff_off (tz : string -> Z -> Z) (ti : tinterval) (unix own_off : Z) : Z :=
   match ti_loc ti with Some z => tz z unix | None => own_off end.
